@@ -85,6 +85,14 @@ def as_sym_seq(interp: Interp, st: St, x: V):
             yield s, ("ok", SymSeq(inner.length,
                                    lambda s2, i, inner=inner, sv=sv: V("tuple", [V("int", sv + i), inner.elem(s2, i)])))
         return
+    if x.tag and x.tag[0] == "reversed":
+        for s, r in as_sym_seq(interp, st, x.tag[1]):
+            if r[0] != "ok":
+                yield s, r
+                continue
+            inner = r[1]
+            yield s, ("ok", SymSeq(inner.length, lambda s2, i, inner=inner: inner.elem(s2, z3.simplify(inner.length - 1 - i))))
+        return
     if x.tag and x.tag[0] == "zip":
         parts = x.tag[1]
 
@@ -691,8 +699,14 @@ def eval_comprehension(interp: Interp, node, st: St, kind):
             continue
         x = r[1]
         if kind == "gen":
-            def thunk(s, x=x):
-                yield from run_comprehension(interp, node, g, s, x, kind)
+            def thunk(s, x=x, env=dict(s0.env)):
+                # a generator expression is a closure: its body sees the environment it was created in, wherever it is
+                # consumed (e.g. inside a callee it was passed to)
+                saved = s.env
+                s.env = dict(env)
+                for s1, r1 in run_comprehension(interp, node, g, s, x, kind):
+                    s1.env = dict(saved)
+                    yield s1, r1
             yield s0, ("ok", V("gen", thunk))
         else:
             for s1, r1 in run_comprehension(interp, node, g, s0, x, kind):
